@@ -443,7 +443,7 @@ def run(ctx):
     MAC = "metrique_macro"
     gens = []
     for b in F.all_bodies(MAC):
-        if b.kind != "Closure" or "aggregate::generate_" not in b.path:
+        if "::aggregate::" not in b.path + "::":
             continue
         lits = []
         for c in b.calls():
@@ -460,7 +460,7 @@ def run(ctx):
                 lits.append((c, s_))
         if any(s_ == "accum" for _, s_ in lits) and any(s_ == "input" for _, s_ in lits):
             gens.append((b, lits))
-    ctx.floor("R10.8", "merge-call generators in the aggregate macro", len(gens), 2)
+    gens_real = {b.def_ for b, _ in gens}
     for b, lits in gens:
         dom = b.dominators()
         pr = Prov(b)
@@ -495,13 +495,20 @@ def run(ctx):
         inp = [next_interp(c) for c, s_ in lits if s_ == "input"]
         acc = [a for a in acc if a]
         inp = [a for a in inp if a]
+        if not acc and not inp:
+            # `accum` / `input` as parameter names of the generated signature, not as `accum.#field`: not a per-field generator
+            gens_real.discard(b.def_)
+            continue
         ctx.check(bool(acc) and bool(inp) and all(i_ == acc[0] for i_ in inp) and all(a == acc[0] for a in acc), "R10.8", fnkey(b) + "#accumulator-and-input-same-field", loc(b),
                   "the generated merge call pairs `accum.<%s>` with `input.<%s>`: a field of the input would be merged into another field of the aggregate" % (
                       sorted(acc[0]) if acc else "?", [sorted(i_) for i_ in inp]),
                   "accum.#f and input.#f interpolate the same field identifier %s" % (sorted(acc[0]) if acc else ""))
+    gens = [(b, l_) for b, l_ in gens if b.def_ in gens_real]
+    ctx.floor("R10.8", "merge-call generators in the aggregate macro", len(gens), 2)
     # the field filter of the generators: every field that is neither key nor ignored gets a merge call
-    filt = [b for b in F.all_bodies(MAC) if b.kind == "Closure" and "aggregate::generate_" in b.path and b.locals and b.locals[0]["ty"] == "bool" and not b.calls()]
+    filt = [b for b in F.all_bodies(MAC) if b.kind == "Closure" and "::aggregate::" in b.path and b.locals and b.locals[0]["ty"] == "bool" and not b.calls()]
     nf = 0
+    good_filt = set()
     for b in filt:
         reads = set()
         for i in b.live_blocks():
@@ -518,9 +525,43 @@ def run(ctx):
                     reads |= {e[2] for e in p_.get("p", []) if e[0] == "f"}
         if reads & {"is_key", "is_ignored"}:
             nf += 1
+            good_filt.add(b.def_)
             ctx.check(reads <= {"is_key", "is_ignored"}, "R10.8", fnkey(b) + "#only-key-and-ignored-fields-are-skipped", loc(b),
                       "the generator skips fields on another criterion than key/ignored (%s): such a field would silently not be aggregated" % sorted(reads))
-    ctx.floor("R10.8", "field filters of the merge generators", nf, 2)
+    ctx.floor("R10.8", "field filters of the merge generators", nf, 1)
+    # ... and every generator runs over the filtered fields: the `map` that applies it (the generator itself, or a closure that only
+    # calls it) iterates the result of a `filter` with one of those predicates, written in place or in a private helper of the module
+    def _filtered_source(pb, c, depth=2):
+        pr_ = Prov(pb, extra_adapters=("core::iter::traits::iterator::Iterator::filter", "core::iter::traits::iterator::Iterator::map",
+                                       "core::iter::traits::iterator::Iterator::enumerate"))
+        for y in pr_.operand(c.args[0]) if c.args else ():
+            if y[0] not in ("call", "via"):
+                continue
+            x = CallSite(pb, y[1], pb.term(y[1]))
+            if x.name == "filter" and any(cl.def_ in good_filt for cl in closure_args(F, x)):
+                return True
+            if depth:
+                for hb in local_callee_bodies(F, x):
+                    if hb.crate == MAC and any(z.name == "filter" and any(cl.def_ in good_filt for cl in closure_args(F, z)) for z in hb.calls()):
+                        return True
+        return False
+    gen_defs = {b.def_ for b, _ in gens}
+    n_sites = 0
+    for pb in F.all_bodies(MAC):
+        if "::aggregate::" not in pb.path + "::":
+            continue
+        for c in pb.calls():
+            if c.name != "map" or not (c.is_trait_method("Iterator", "map")):
+                continue
+            cls_ = closure_args(F, c)
+            hit = [cl for cl in cls_ if cl.def_ in gen_defs or any(sb.def_ in gen_defs for x in cl.calls() for sb in local_callee_bodies(F, x))]
+            if not hit:
+                continue
+            n_sites += 1
+            ctx.check(_filtered_source(pb, c), "R10.8", fnkey(pb) + "#generator-runs-over-filtered-fields@%s" % hit[0].path.split("::")[-2], loc(pb, c.bb),
+                      "a merge-call generator is applied to fields that did not pass the key/ignored filter: a key or an ignored field "
+                      "would be merged (or the filter was replaced by another criterion)", "map over filter(!is_key && !is_ignored)")
+    ctx.floor("R10.8", "sites applying a merge-call generator to the parsed fields", n_sites, 2)
 
     # ------------------------------------------------------------------ R10.6 merge-on-drop guards
     guards = []
